@@ -108,6 +108,8 @@ def run(ctx):
             continue
         if orr not in ("css", "error"):
             continue                      # a crash of the nested rule itself is C01/C04's business
+        if b["text"].lstrip().startswith("*"):
+            continue                      # '&*' is not a nested rule Sass defines; selector-append rejects a leading universal selector
         nappend += 1
         if of != orr:
             ctx.violation("selector-append and the nested rule '&B' disagree on (%s | %s): function %s, rule %s" % (a["text"], b["text"], of, orr),
